@@ -122,15 +122,19 @@ PROPS = {
                     "the same clause booleans on the implementation",
     ),
     "C10": dict(
-        engines=[dict(name="rolloutsm", quick=1200, thorough=60000, shard=400, trivial_tags=["no-change", "status-not-written"])],
+        engines=[dict(name="rolloutsm", quick=1200, thorough=60000, shard=400, trivial_tags=["no-change", "status-not-written"]),
+                 dict(name="rollouttr", quick=1200, thorough=60000, shard=400, trivial_tags=["no-network-write"]),
+                 dict(name="rolloutbg", quick=600, thorough=30000, shard=400, trivial_tags=["no-change", "status-not-written"])],
         rule="seeded generator of (Rollout spec: 1-6 canary steps with int/percent replicas and optional pause durations, paused, disabled, deleting, finalizer, rollback-in-batch "
              "annotation; persisted status: every phase, every Progressing reason, sub-status with every step state incl. unknown, step index, nextStepIndex incl. jumps and out-of-range "
              "values (0, negative, len+1, 99), stale/current/empty rollout hash, every finalising step, elapsed/fresh timestamps; CloneSet: missing, inconsistent generation, rolled back, "
              "new revision, rollout-id label; BatchRelease: absent, matching, stale partition, nil partition, foreign rollout-id, older plan, inconsistent, not ready, deleting); one real "
              "RolloutReconciler.Reconcile per case on the fake client; non-trivial = the model writes a status or BatchRelease change; distinct = distinct input JSON",
         trusted=["as C02"],
-        assumptions=["dispatch and order of writes within a reconcile; the traffic effects of the cancellation tasks are C04's"],
-        explanation="rollback/supersession dispatch theorems; dispatch clause evaluated on the real reconcile's result",
+        assumptions=["'before the pods are removed' is 'before the BatchRelease is patched to resume / deleted' (pods are represented by BatchRelease state)",
+                     "the cancellation sequence is entered with the finalising invariant finv (C04 proves every history keeps it)"],
+        explanation="rollback/supersession dispatch theorems; with traffic routing: the workload is touched only after the canary route is gone (rollback and supersession), "
+                    "blue-green refuses supersession; the same clauses evaluated on real reconciles (rolloutsm, rollouttr, rolloutbg engines)",
     ),
     "C03": dict(
         engines=[dict(name="rollouttr", quick=1200, thorough=60000, shard=400, trivial_tags=["no-network-write"]),
@@ -363,10 +367,14 @@ MANIFEST_TEXT = {
              "through v1alpha1). Blue-green reconciles have their own no-panic theorem and engine (rolloutbg); F17 is a panic inside the admission handler, recovered by net/http.",
         design_ref="DESIGN.md section 9, C09"),
     "C10": dict(
-        text="Proof (dispatch layer): a direct rollback switches the reconcile to Cancelling without touching the BatchRelease, the cancellation order starts with "
-             "RouteTrafficToStable and resumes/releases the workload only afterwards; a newer revision deletes the BatchRelease first and resets the status to step one only once it "
-             "is gone. Tied to the real Reconcile by the rolloutsm engine; the dispatch clause is evaluated on the real result.",
-        note="The effect of each cancellation task on Services and routes (traffic really back on stable) is C04's automaton; blue-green refusal of supersession is not modelled.",
+        text="Proof: a direct rollback switches the reconcile to Cancelling without touching the BatchRelease, the cancellation order starts with RouteTrafficToStable; with traffic "
+             "routing, a reconcile of the cancellation sequence that patches or deletes the BatchRelease finds the canary route already gone and writes nothing to the network "
+             "(for every persisted state satisfying the finalising invariant and every in-memory grace state); a newer revision removes the BatchRelease only in a reconcile "
+             "after whose writes the canary route is gone, and resets the status to step one only once the BatchRelease is gone; a blue-green release leaves cursor and "
+             "BatchRelease untouched when a newer revision arrives. Tied to the real Reconcile by the rolloutsm, rollouttr and rolloutbg engines; the clauses are evaluated on "
+             "the real results.",
+        note="'Before the new-revision pods are removed' is stated on the BatchRelease (its resume / deletion is what removes them). The end state 'reported as not succeeded' is "
+             "part of the dispatch theorems (Completed with Succeeded=false in Model/RolloutSM.v).",
         design_ref="DESIGN.md section 9, C10"),
     "C03": dict(
         text="Proof: for one Rollout reconcile with traffic routing and EVERY persisted status, workload, BatchRelease, network state and in-memory grace state: a route is written "
